@@ -468,6 +468,12 @@ func checkInference(c *wk.Case, f *sfnt.Font, eff []string, cnt map[string]int, 
 			if want == "" || cnt[want] > 0 || cand[want] != 1 {
 				continue
 			}
+			if len(targets[g]) > 0 || strings.ContainsAny(want, "._") {
+				// also reachable through a substitution rule (which source
+				// wins is not specified), or a name of the shape that rules
+				// derive
+				continue
+			}
 			c.Count("inference_judged_cmap", 1)
 			if got[g] != want {
 				c.Fail("names-inference", "MakeGlyphNames/cmap", "glyph %d has no name and is the image of %U only, whose glyph-list name %q nobody else has: MakeGlyphNames returns %q", g, rr[0], want, got[g])
